@@ -181,14 +181,14 @@ def run_history(acc, role, n_out, n_in, logon_first, ops, maxlen, frame_hook=Non
                 st0 = ep.connection_state
                 w0 = len(b.link.writers[b.side].written)
                 n0 = ep._session.next_num_out
-                rows0 = len(ep._journaler.recover_messages(ep._session, MessageDirection.OUTBOUND, 0, 2**63 - 1))
+                rows0 = len(list(ep._journaler.recover_messages(ep._session, MessageDirection.OUTBOUND, 0, 2**63 - 1)))
                 r = b.w.call(ep.send_msg(msg))
                 if r[0] == "exc":
                     e = r[1]
                     if isinstance(e, FIXConnectionError) or (isinstance(e, EncodingError) and cls in ("Dna", "Dgna")) or (isinstance(e, FIXError) and cls == "Dfw"):
                         refused += 1
                         w1 = len(b.link.writers[b.side].written)
-                        rows1 = len(ep._journaler.recover_messages(ep._session, MessageDirection.OUTBOUND, 0, 2**63 - 1))
+                        rows1 = len(list(ep._journaler.recover_messages(ep._session, MessageDirection.OUTBOUND, 0, 2**63 - 1)))
                         if w1 != w0:
                             bad(f"refused-send-wrote/{cls}", f"{step} in {st0.name}: raised {type(e).__name__} but wrote {w1 - w0} frame(s)")
                         if ep._session.next_num_out != n0:
